@@ -9,9 +9,14 @@ from ..binary import Binary
 def tpm_pkgs_from_pcap_file(file):
     pcapng = dpkt.pcapng.Reader(file)
 
+    # try different parsers (eth packages went over 127.0.0.1, ip packages are from tpm2-tss tcti-pcap)
+    parsers = (dpkt.ip.IP, dpkt.ethernet.Ethernet)
+    if pcapng.datalink() == dpkt.pcap.DLT_EN10MB:
+        # an ethernet capture says so: do not take a frame for an ip package because its first byte (mac address) looks like one
+        parsers = (dpkt.ethernet.Ethernet,)
+
     for ts, pkg_bytes in pcapng:
-        # try different parsers (eth packages went over 127.0.0.1, ip packages are from tpm2-tss tcti-pcap)
-        for parser in (dpkt.ip.IP, dpkt.ethernet.Ethernet):
+        for parser in parsers:
             try:
                 pkg = parser(pkg_bytes)
                 break
